@@ -589,12 +589,20 @@ def mon_decode(run, script, il, iab, ml):
     """C12, decoders: values returned by the getters equal the datasheet formulas applied to the
     raw register bytes that the call read (taken from its SPI trace)"""
     BW = {0: 7800, 1: 10400, 2: 15600, 3: 20800, 4: 31250, 5: 41700, 6: 62500, 7: 125000, 8: 250000, 9: 500000}
+    frf = None      # RegFrf as last written or read on the bus (a later read may be served by the cache)
     for l in il:
         if not is_op(l):
+            if l.startswith('reset') or l.startswith('env chiprand') or l.startswith('env chip s'):
+                frf = None
             continue
         f = fields(l)
         op = f['op']
         rc = f.get('rc', '')
+        for e in spi_entries(f.get('spi')):
+            if e['reg'] == 6 and e['fault'] is None and e['kind'] in ('W', 'R') and len(e['data']) == 6:
+                frf = int(e['data'], 16)
+        if op == 'create':
+            frf = None
         if not rc.startswith('0,'):
             continue
         ents = spi_entries(f.get('spi'))
@@ -632,9 +640,9 @@ def mon_decode(run, script, il, iab, ml):
             got = f32(int(val, 16))
             if got != raw / 4.0:
                 run.violation('SNR decoded as %r, formula gives %r (raw %02x)' % (got, raw / 4.0, reads[0x19]), script, {'line': l})
-        elif op == 'rx_get_packet_rssi' and am == LORA and 0x1a in reads and 0x06 in reads:
+        elif op == 'rx_get_packet_rssi' and am == LORA and 0x1a in reads and (0x06 in reads or frf is not None):
             run.cov['monitor_checks'] += 1
-            freq = Fraction(reads[0x06] * 32000000, 2 ** 19)
+            freq = Fraction(reads.get(0x06, frf) * 32000000, 2 ** 19)
             rssi = reads[0x1a] - (164 if freq < 525000000 else 157)
             snr = reads.get(0x19)
             if snr is not None:
